@@ -487,7 +487,7 @@ func (w *World) register(n *SPNode) {
 				w.hist.add("register-panic", -1, fmt.Sprintf("sp%d %v", n.Idx, r))
 				st := string(debug.Stack())
 				w.Violations = append(w.Violations, ViolationRec{Rule: "C09.register-panic",
-					Key:      "C09:register:" + corruptClass(n.Cfg.Corrupt) + ":" + firstRepoFunc(st),
+					Key:      "C09:register:panic:" + firstRepoFunc(st),
 					Expected: "NewServiceProvider returns a ServiceProvider or an error",
 					Observed: fmt.Sprintf("panic: %v", r), Task: -1})
 			}
